@@ -54,8 +54,15 @@ def ctx_value(ctx):
             out[k] = ('s', v)
         elif callable(v):
             continue
-        elif isinstance(v, (list, dict, set)):
-            continue       # mutable containers are outside the model (values are immutable there): compared directly where needed
+        elif isinstance(v, (list, tuple, set, frozenset, dict)):
+            flat = all(isinstance(x, (int, str, bool, type(None))) for x in (list(v.values()) + list(v.keys()) if isinstance(v, dict) else v))
+            if not flat:
+                continue   # NESTED mutable containers are outside the model: the snapshot behind __old__ copies one level only
+            out[k] = ('s', repr(sorted(v, key=repr)) if isinstance(v, (set, frozenset)) else repr(v))
+        elif hasattr(v, '__dict__') and not isinstance(v, type):
+            attrs = vars(v)
+            if all(isinstance(x, (int, str, bool, type(None))) for x in attrs.values()):
+                out[k] = ('s', 'object:' + repr(sorted(attrs.items())))      # (copy.copy of an object copies its attributes)
         else:
             out[k] = ('s', repr(v))
     return tuple(sorted(out.items()))
